@@ -311,6 +311,28 @@ Audit audit(vrt::Case& c, const Spec& sp)
     vrt::expect(vrt::close(d, prod, static_cast<double>(8 * static_cast<LD>(n) * EPS), 1e-290), "det.sign-times-diagonal", cls + (moved ? ",rows-exchanged" : ",no-exchange"), [&] {
         return head + " => det()=" + num(d) + " but sign(pivot " + vrt::vecStr(piv) + ")=" + str(sgn) + " times prod diag(U)=" + num(prod);
       });
+    // a copied / assigned decomposition is the same decomposition: same factors, same permutation, same sign
+    {
+      vrt::step("copy-construct and assign the decomposition");
+      LUDecomposition<double> cp(lu);
+      RowMatrix<double> other(1, 1);
+      other(0, 0) = 2.;
+      LUDecomposition<double> as(other);
+      as = lu;
+      for (int which = 0; which < 2; ++which)
+      {
+        LUDecomposition<double>& x = which ? as : cp;
+        const string how = which ? "assigned" : "copy-constructed";
+        double dx = x.det();
+        bool sameFactors = x.getPivot() == piv;
+        Dense Lx = toDense(x.getL()), Ux = toDense(x.getU());
+        for (size_t i = 0; i < n && sameFactors; ++i)
+          for (size_t j = 0; j < n; ++j)
+            if (Lx(i, j) != L(i, j) || Ux(i, j) != U(i, j)) sameFactors = false;
+        vrt::expect(sameFactors, "copy.same-factors", cls + "," + how, [&] { return head + " => the " + how + " decomposition has other factors / pivot " + vrt::vecStr(x.getPivot()) + " than the original " + vrt::vecStr(piv); });
+        vrt::expect(vrt::sameDouble(dx, d), "copy.same-determinant", cls + "," + how + (moved ? ",rows-exchanged" : ",no-exchange"), [&] { return head + " => det() of the " + how + " decomposition = " + num(dx) + " but the original gives " + num(d) + " (pivot " + vrt::vecStr(piv) + ")"; });
+      }
+    }
     vrt::Outcome od;
     double d2 = 0;
     od = vrt::capture([&] { d2 = MatrixTools::det(*mA); });
